@@ -898,8 +898,9 @@ static void skip_line () {
 
   while (((c = *yyp++) != '\n') && (c != LEX_EOF));
 
-  /* Next read of this '\n' will do refill_buffer() if neccesary */
-  if (c == '\n')
+  /* Next read of this '\n' will do refill_buffer() if neccesary;
+   * the end-of-file mark is left for the caller as well (a last line without '\n'): what follows it is not input */
+  if (c == '\n' || c == LEX_EOF)
     yyp--;
   outptr = yyp;
 }
@@ -1771,7 +1772,10 @@ int yylex () {
                     {
                       yyerror ("Unrecognised # directive");
                     }
-                  *--outptr = '\n';
+                  if (c == LEX_EOF)
+                    *(last_nl = --outptr) = LEX_EOF; /* the directive was the last line and had no '\n': what follows the mark is not input */
+                  else
+                    *--outptr = '\n';
                   break;
                 }
             }
